@@ -457,7 +457,7 @@ def rule_agreements(model):
             r.finding(fi.where, f'urllib.parse.{sorted(used)}', f'{name} '
                       f'must use urllib.parse.{want} only', node=fi.node,
                       ctx=fi)
-    sq = m.funcs.get('sql_quote')
+    sq = model.inlined_view().module('DT_Var').funcs.get('sql_quote')
     if sq is None:
         raise AnalysisError('DT_Var.sql_quote not found')
     removed, doubled = set(), set()
@@ -479,9 +479,16 @@ def rule_agreements(model):
                                              f'{tv} + {tv}'):
                         doubled |= set(vals)
         if isinstance(n, ast.Call) and isinstance(n.func, ast.Attribute) \
-                and n.func.attr == 'replace' and len(n.args) == 2 and \
-                all(isinstance(a, ast.Constant) for a in n.args):
-            a, b = n.args[0].value, n.args[1].value
+                and n.func.attr == 'replace' and len(n.args) == 2:
+            # constants, possibly spelled c + c / c * 2 after unrolling
+            try:
+                from .. import constfold
+                a = constfold.fold(n.args[0], {}, {})
+                b = constfold.fold(n.args[1], {}, {})
+            except Exception:
+                continue
+            if not (isinstance(a, str) and isinstance(b, str)):
+                continue
             if b == '':
                 removed.add(a)
             elif b == a * 2:
